@@ -65,6 +65,7 @@ def run(ctx):
     scenarios += [('core.Hessian', s) for s in history.aborted_call_scenarios('Hessian', 2)]
     scenarios += [('core.Jacobian', s) for s in history.other_point_scenarios('Jacobian', 2)]
     scenarios += [('core.Derivative', s) for s in history.earlier_object_scenarios('Derivative', None)]
+    scenarios += [('core.Derivative', s) for s in history.step_option_scenarios('Derivative', None)]
     scenarios += [('core.Hessian', s) for s in history.earlier_object_scenarios('Hessian', 2)]
     scenarios += [('core.Hessian', s) for s in history.other_point_scenarios('Hessian', 2)]
     for construct, sc in scenarios:
